@@ -296,6 +296,7 @@ func reportHubListener(c *fw.Ctx, stream string, k cfg, hl int, plan string, st 
 		c.Count("hub_listener_deleted_after_leaving_ring:"+k.Backend, total)
 		c.Count("hub_listener_deleted_after_leaving_ring:history"+strconv.Itoa(hl), total)
 		c.Count("hub_listener_histories_with_departure_after_leaving_ring", 1)
+		c.Unit() // a second, independently judged aspect of the same history
 		c.NonTrivial(fmt.Sprintf("hub-listener|%s|%s|hub=%d|%s|%v", stream, k, hl, plan, reasons))
 	}
 	if stream == "longhub" {
